@@ -287,6 +287,60 @@ def stored_format_cases():
         yield {'name': f"stored_number_format|{k}", 'ok': not probs, 'detail': '; '.join(probs[:3])}
 
 
+def native_selection_cases():
+    """real point isotherm with a hysteresis loop and a supplementary column: a read between limits returns exactly the stored points
+    of the requested branch (or of the whole data) whose value lies inside the limits, in measurement order -- also when the points
+    inside the limits are not consecutive rows, in stored and in requested units"""
+    import pygaps
+    pygaps.logger.disabled = True
+    P = numpy.array([1.0, 2.0, 3.0, 4.0, 5.0, 6.0, 4.5, 3.5, 2.0])
+    L = numpy.array([1.0, 2.0, 3.0, 4.0, 5.0, 6.0, 5.6, 4.8, 2.9])
+    H = numpy.array([8.0, 7.0, 6.0, 5.0, 4.0, 3.0, 4.6, 5.2, 7.1])
+    B = numpy.array([0, 0, 0, 0, 0, 0, 1, 1, 1])
+    import pandas
+    iso = pygaps.PointIsotherm(isotherm_data=pandas.DataFrame({'pressure': P, 'loading': L, 'enthalpy': H, 'branch': B}), pressure_key='pressure', loading_key='loading',
+                               material='pgv_c03', adsorbate='nitrogen', temperature=77.355, pressure_mode='absolute', pressure_unit='bar', loading_basis='molar',
+                               loading_unit='mmol', material_basis='mass', material_unit='g', temperature_unit='K')
+    rows = {None: numpy.ones(9, bool), 'ads': B == 0, 'des': B == 1}
+
+    def inside(v, lim):
+        lo = -numpy.inf if lim[0] is None else lim[0]
+        hi = numpy.inf if lim[1] is None else lim[1]
+        return (v >= lo) & (v <= hi), (v > lo) & (v < hi)
+    for br in (None, 'ads', 'des'):
+        for what, col, read, fac in (('pressure', P, lambda lim, kw: iso.pressure(branch=br, limits=lim, **kw), {'': 1.0, 'kPa': 100.0}),
+                                     ('loading', L, lambda lim, kw: iso.loading(branch=br, limits=lim, **kw), {'': 1.0, 'mol': 1e-3}),
+                                     ('enthalpy', H, lambda lim, kw: iso.other_data('enthalpy', branch=br, limits=lim), {'': 1.0})):
+            for unit, f in fac.items():
+                probs = []
+                for lim in ((2.5, 5.0), (None, 4.0), (3.2, None), (None, 4.9), (5.1, 8.0)):
+                    kw = {} if not unit else ({'pressure_unit': unit} if what == 'pressure' else {'loading_unit': unit})
+                    slim = tuple(None if x is None else x * f for x in lim)
+                    closed, open_ = inside(col, lim)
+                    must = col[rows[br] & open_] * f
+                    may = col[rows[br] & closed] * f
+                    try:
+                        got = numpy.asarray(read(slim, kw), dtype=float)
+                        # every stored point strictly inside is returned, nothing outside is, order is measurement order
+                        ok = len(got) >= len(must) and len(got) <= len(may) and all(numpy.any(numpy.isclose(may, g, rtol=1e-12)) for g in got) and \
+                            all(numpy.any(numpy.isclose(got, m, rtol=1e-12)) for m in must)
+                        if ok and len(got) == len(may):
+                            ok = bool(numpy.allclose(got, may, rtol=1e-12))
+                        if not ok:
+                            probs.append(f"limits={slim}: returned {got}, stored points inside {may}")
+                    except Exception as exc:
+                        probs.append(f"limits={slim}: {type(exc).__name__}: {exc}"[:120])
+                yield {'name': f"native_selection|{what}|branch={br}|unit={unit or 'stored'}", 'ok': not probs, 'detail': '; '.join(probs[:2])}
+
+
+@replayer('c03.native_selection')
+def _native_selection(spec, model):
+    for r in native_selection_cases():
+        if r['name'] == spec['name']:
+            return {'confirmed': not r['ok'], 'observed': r['detail'], 'expected': 'exactly the stored points of the branch inside the limits, in measurement order'}
+    return {'confirmed': False, 'error': 'case not found'}
+
+
 def model_limit_cases():
     """limits on the points a model isotherm generates: a limit that is exactly zero is a limit (points on a limit may fall on
     either side -- the property does not say); one-sided limits leave the other side open"""
